@@ -5,18 +5,25 @@ import contextlib
 import itertools
 import signal
 
-from streamflow.core.workflow import Token, Workflow
-from streamflow.workflow.combinator import CartesianProductCombinator, DotProductCombinator
+import asyncio
 
-from sfv.framework import Ctx, Property
+from streamflow.core.workflow import Status, Token, Workflow
+from streamflow.workflow.combinator import CartesianProductCombinator, DotProductCombinator
+from streamflow.workflow.step import CombinatorStep
+from streamflow.workflow.token import TerminationToken
+
+from sfv.framework import Ctx, Inconclusive, Property
 from sfv.rt import loop as sfloop
 from sfv.rt import sfctx
 from sfv.translate import combguards, tagguards
 
 DRIVER = "Drivers/C02.lean"
 COMPS = [0, 1, 2, 9, 10, 11]
+SLOW_S = 900  # generous wall-clock bound per case (shared, loaded machine)
 KEY_DESC = "dot:port-with-tag-and-own-descendant:order-dependent"
 KEY_MIXED = "cart:ports-with-mixed-tag-depths:order-dependent"
+KEY_IDX = "dot:port-with-tag-and-own-descendant:IndexError"
+KEY_NESTC = "nest:cartesian-over-inner-combinator:raises"
 
 
 # ------------------------------------------------------------------------------------------------
@@ -68,7 +75,8 @@ def build(wf: Workflow, shape: dict):
         for p in range(shape["P"]):
             c.add_item(f"p{p}")
         return c
-    outer = DotProductCombinator(name="outer", workflow=wf)
+    outer = (DotProductCombinator(name="outer", workflow=wf) if shape["kind"] == "nest" else
+             CartesianProductCombinator(name="outer", workflow=wf, depth=shape["depth"]))
     for i, it in enumerate(shape["items"]):
         if isinstance(it, int):
             outer.add_item(f"p{it}")
@@ -99,6 +107,38 @@ async def run_real(wf: Workflow, shape: dict, events: list) -> tuple[list, str |
     except Exception as e:  # noqa: BLE001
         return out, type(e).__name__
     return out, None
+
+
+async def run_step(sfc, shape: dict, events: list, name: str) -> list:
+    """the same stream through a REAL CombinatorStep with real ports: a feeder task puts the (persisted) tokens on the
+    input ports in the given order, yielding after each one, while `step.run()` consumes them; the order in which the
+    step sees tokens of different ports is decided by the controlled loop. Returns the schemas read off the output ports."""
+    wf = Workflow(context=sfc, config={}, name=name)
+    comb = build(wf, shape)
+    ports = nest_ports(shape) if shape["kind"] == "nest" else list(range(shape["P"]))
+    step = wf.create_step(cls=CombinatorStep, name="/comb", combinator=comb)
+    ins, outs = {}, {}
+    for p in ports:
+        ins[p], outs[p] = wf.create_port(), wf.create_port()
+        step.add_input_port(f"p{p}", ins[p])
+        step.add_output_port(f"p{p}", outs[p])
+    await wf.save(sfc.database)
+
+    async def feeder():
+        for p, tag, val in events:
+            t = Token(value=val, tag=tag)
+            await t.save(sfc.database, port_id=ins[p].persistent_id)
+            ins[p].put(t)
+            await asyncio.sleep(0)
+        for p in ports:
+            ins[p].put(TerminationToken(Status.COMPLETED))
+
+    await asyncio.gather(asyncio.create_task(feeder()), asyncio.create_task(step.run()))
+    cols = {p: [t for t in outs[p].token_list if not isinstance(t, TerminationToken)] for p in ports}
+    n = {len(v) for v in cols.values()}
+    if len(n) != 1:
+        return [[(p, t.tag, t.value)] for p in ports for t in cols[p]]  # ragged output: reported as it is
+    return [[(p, cols[p][i].tag, cols[p][i].value) for p in ports] for i in range(n.pop())]
 
 
 def canon(out: list) -> list:
@@ -205,8 +245,8 @@ def spec_nest(shape: dict, S: list):
                     return None
                 inner = spec_dot(ports, sub)
             else:
-                if not wf_cart(ports, sub):
-                    return None
+                if not wf_cart(ports, sub) or it[1] != 1:
+                    return None  # depth >= 2: the members of a schema carry different tags — correspondence only
                 inner = spec_cart(it[1], ports, sub)
             # a schema is filed under get_tag(members) = its deepest tag; every member of a dot schema has the same tag,
             # the members of a cartesian schema have tags of equal length: the first one is taken
@@ -304,6 +344,9 @@ CORPUS = [
     ({"kind": "dot", "P": 2}, [(0, "0", 100), (1, "0", 7), (0, "0.0", 5)]),                   # the Lean witness (known finding)
     ({"kind": "dot", "P": 2}, [(0, "0", 1), (1, "0.10", 2), (1, "0.9", 3), (1, "0.1", 4)]),   # component >= 10
     ({"kind": "dot", "P": 2}, [(0, "0.10", 1), (1, "0.10.11", 2), (1, "0.1.0", 3), (0, "0.1", 4)]),
+    # the loop variable `tag` of _product is re-assigned inside `for _ in range(num_items)`: IndexError (known finding)
+    ({"kind": "dot", "P": 3}, [(0, "0.0.0.0", 0), (2, "0", 1), (0, "0.0.0", 2), (1, "0", 3), (0, "0.0", 4), (1, "0.0", 5), (2, "0.0.0.0", 6)]),
+    ({"kind": "dot", "P": 2}, [(1, "0.10", 0), (1, "0.0.0", 1), (1, "0.0", 2), (1, "0.0.0", 3), (1, "0.0", 4), (0, "0", 5), (0, "0.0", 6), (0, "0.0.0", 7), (1, "0", 8), (0, "0.0.0", 9)]),
     ({"kind": "dot", "P": 2}, []),
     ({"kind": "dot", "P": 2}, [(0, "0", 1)]),
     ({"kind": "dot", "P": 2}, [(0, "0", 1), (0, "0", 2), (1, "0", 3), (1, "0", 4)]),          # duplicate tags (outside the quantifier)
@@ -317,6 +360,14 @@ CORPUS = [
     ({"kind": "cart", "depth": 1, "P": 3}, [(0, "0.0", 1), (1, "0.1", 2)]),
     ({"kind": "nest", "items": [["c", 1, [0, 1]], 2]}, [(0, "0.0", 1), (0, "0.1", 2), (1, "0.0", 3), (1, "0.1", 4), (2, "0", 5)]),
     ({"kind": "nest", "items": [["d", [0, 1]], 2]}, [(0, "0.0", 1), (0, "0.1", 2), (1, "0.0", 3), (1, "0.1", 4), (2, "0", 5)]),
+]
+
+
+NESTC_CORPUS = [
+    ({"kind": "nestc", "depth": 1, "items": [["d", [0, 1]], 2]}, [(0, "0.0", 1), (1, "0.0", 2), (2, "0.0", 3)]),
+    ({"kind": "nestc", "depth": 1, "items": [["d", [0, 1]], 2]}, [(0, "0.0", 1), (1, "0.0", 2), (0, "0.1", 4), (1, "0.1", 5), (2, "0.9", 3)]),
+    ({"kind": "nestc", "depth": 1, "items": [["c", 1, [0, 1]], 2]}, [(0, "0.0", 1), (1, "0.0", 2), (2, "0.0.0", 3)]),
+    ({"kind": "nestc", "depth": 1, "items": [2, ["d", [0, 1]]]}, [(2, "0.10", 3), (0, "0.1", 1), (1, "0.1", 2)]),
 ]
 
 
@@ -339,23 +390,30 @@ class C02(Property):
         "cartesian key/suffix slices -> SFV/Gen/CombGuards.lean)",
         "modelled, not verified: dict insertion order, deque append/pop, itertools.product order, `dict |= dict` on disjoint keys, "
         "str.split('.')/join — each exercised by the correspondence check on every run",
-        "the lemma tying the loop-faithful model to the closed-form step used by the proofs is stated in SFV/Lemmas/Comb*.lean; where it "
-        "is partial the correspondence check is the tie (see design_notes/C02.md)",
+        "nested combinators: dot[cart1[p0..],plain ports] and dot[dot[p0..],plain ports] are proved (nested_cart_any_order, "
+        "nested_dot_any_order: emitted schemas related to the specification up to the order of their entries); other depth-2 trees "
+        "(inner cartesian depth>=2, several inner combinators) only at the outer level (nested_any_order_partial) — there the "
+        "correspondence check and the monitor (composition of the two specifications) are the evidence",
     ]
-    technique = ("Lean 4 theorems (order independence and exact emitted multiset of the dot product under well-formedness, cartesian "
-                 "cross-product invariant, negative witness by kernel evaluation of the loop-faithful model) + ast translator of the guards "
-                 "+ differential correspondence of emission sequences on all permutations of small streams")
-    level_text = ("grade A: for every number of ports and every well-formed stream the dot product emits, in any arrival order, exactly "
-                  "one combination per complete received tag with the unique prefix-tagged token of every port; the cartesian product "
-                  "emits exactly the cross product per key with composite tags; the full-strength statement without well-formedness is "
-                  "proved false by a witness that reproduces on the real class (known finding)")
+    technique = ("Lean 4 theorems about the loop-faithful executable model (dot product: loop = closed form + order-independence invariant + "
+                 "emitted values; cartesian product: product algebra up to permutation + 'emitted so far = all configurations' invariant; "
+                 "negative witnesses by kernel evaluation) + ast translator of the guards/slices + differential correspondence of emission "
+                 "sequences on all permutations of small streams + step-level monitor through a real CombinatorStep under a controlled loop")
+    level_text = ("grade A for flat combinators: for every number of ports, every well-formed stream and every arrival order the dot product "
+                  "raises nothing and emits exactly one combination per complete received tag with the unique prefix-tagged token of every "
+                  "port (values included); the cartesian product (any depth >= 1) emits exactly the cross product per key with the composite "
+                  "tags; both proved about the loop-faithful model the driver runs. The full-strength statements without well-formedness are "
+                  "proved false by witnesses that reproduce on the real classes (known findings: order dependence, IndexError, mixed "
+                  "depths). Nested combinators: the two trees the CWL translator builds (outer dot over an inner depth-1 cartesian / inner dot product "
+                  "plus plain ports) are proved by composition; other depth-2 trees only at the outer level + correspondence/monitor; a "
+                  "cartesian product over an inner combinator crashes on the real class (known finding)")
     level_note = ("Lean kernel, axioms within {propext, Classical.choice, Quot.sound}; theorems are about the Lean models in SFV/Model/Comb.lean "
                   "(loop-faithful) and SFV/Lemmas/Comb*.lean (closed form); the tie to the Python classes is the translator of the guards plus "
-                  "the correspondence check of emission sequences; nested combinators are covered by correspondence and monitor only")
+                  "the correspondence check of emission sequences; nested theorems relate schemas up to the order of their entries")
     assumptions = ["tags are dotted decimals rooted at 0; per port the tags are distinct and no tag is a prefix of another (dot), all tags have "
                    "the same depth >= the combinator depth (cartesian); ports of different items are disjoint; combinator depth >= 1"]
-    quick_budget_s = 200
-    thorough_budget_s = 1500
+    quick_budget_s = 600
+    thorough_budget_s = 3000
     min_nontrivial = 50
 
     # ---- one stream: all orders on the real code, monitor, protocol lines --------------------------------------
@@ -369,12 +427,13 @@ class C02(Property):
                 results.append(await run_real(wf, shape, [S[i] for i in o]))
 
         try:
-            with alarm(60):
-                sfloop.run_controlled(go, ctx.seed, timeout=60)
-        except (Hang, TimeoutError):
-            ctx.fail(f"{shape['kind']}:hang", f"combine() did not return within 60 s on {shape} {S}",
-                     {"shape": shape, "stream": S, "orders": [list(ords[len(results)])] if len(results) < len(ords) else []})
-            return
+            with alarm(SLOW_S):
+                sfloop.run_controlled(go, ctx.seed, timeout=None)
+        except (Hang, TimeoutError) as e:
+            # combine() is synchronous pure-Python code that takes milliseconds; the machine may be heavily loaded, so a
+            # wall-clock overrun is reported as inconclusive (exit 2), never as a violation
+            raise Inconclusive(f"combine() over {len(ords)} orders of {shape} {S} exceeded {SLOW_S} s (order "
+                               f"{list(ords[min(len(results), len(ords) - 1)])})") from e
         kind = shape["kind"]
         ports = list(range(shape["P"])) if kind != "nest" else nest_ports(shape)
         if kind == "dot":
@@ -408,6 +467,13 @@ class C02(Property):
                     break
         else:
             dup = has_dup(ports, S)
+            exc = next(((o, e) for o, e in zip(ords, errs) if e is not None), None)
+            if exc is not None:
+                ctx.count(f"{kind}:nonwf:exception:{exc[1]}")
+                if kind == "dot" and not dup:
+                    ctx.fail(KEY_IDX, f"dot product over {shape['P']} ports, stream {S} (a port carries a tag and descendants of it), arrival order "
+                                      f"{list(exc[0])}: combine() raised {exc[1]} after {len(results[ords.index(exc[0])][0])} emissions",
+                             {"shape": shape, "stream": S, "orders": [list(exc[0])]})
             dep = next((o for o, c, e in zip(ords, cans, errs) if c != cans[0] or e != errs[0]), None)
             if dep is not None:
                 ctx.count(f"{kind}:nonwf:order-dependent")
@@ -426,6 +492,31 @@ class C02(Property):
         for i in pick:
             evs = [S[j] for j in ords[i]]
             batch.append((line_of(shape, evs), render(*results[i]), shape, S, ords[i]))
+
+    def _nestc(self, ctx: Ctx, wf) -> None:
+        """a cartesian product over an inner combinator (a depth-2 tree of the property's quantifier): the composition rule
+        specifies at least one combination for these streams; the real class raises instead (monitor only, not modelled)"""
+        for shape, S in NESTC_CORPUS:
+            ords = orders(ctx.rng, len(S), 24)
+            results = []
+
+            async def go():
+                for o in ords:
+                    results.append(await run_real(wf, shape, [S[i] for i in o]))
+
+            try:
+                with alarm(SLOW_S):
+                    sfloop.run_controlled(go, ctx.seed, timeout=None)
+            except (Hang, TimeoutError) as e:
+                raise Inconclusive(f"combine() on {shape} {S} exceeded {SLOW_S} s") from e
+            ctx.case({"shape": shape, "stream": S, "orders": len(ords), "real_first_order": render(*results[0])}, None, "nestc")
+            bad = next(((o, e) for o, (_, e) in zip(ords, results) if e is not None), None)
+            if bad is not None:
+                ctx.fail(KEY_NESTC, f"{shape} stream {S} in arrival order {list(bad[0])}: combine() raised {bad[1]} before emitting the "
+                                    f"combination(s) the composition rule specifies", {"shape": shape, "stream": S, "orders": [list(bad[0])]})
+            elif not any(out for out, _ in results):
+                ctx.fail("nest:cartesian-over-inner-combinator:emits-nothing", f"{shape} stream {S}: nothing emitted in any order",
+                         {"shape": shape, "stream": S, "orders": [list(ords[0])]})
 
     def _flush(self, ctx: Ctx, batch: list) -> None:
         if not batch:
@@ -475,7 +566,16 @@ class C02(Property):
             else:
                 inner_ports = [0, 1]
                 others = [2] if rng.random() < 0.7 else [2, 3]
-                if rng.random() < 0.5:
+                mode = rng.random()
+                if mode < 0.12:
+                    # correspondence only: non-well-formed streams, inner cartesian depth 2, three inner ports
+                    inner_ports = [0, 1] if rng.random() < 0.6 else [0, 1, 4]
+                    inner = rng.choice([["d", inner_ports], ["c", 1, inner_ports], ["c", 2, inner_ports]])
+                    S = gen_dot_stream(rng, 0, False, ports=inner_ports + others)
+                elif mode < 0.2:
+                    inner = ["c", 2, inner_ports]
+                    S = gen_cart_stream(rng, 0, 2, True, ports=inner_ports) + [(q, "0", 900 + q) for q in others]
+                elif mode < 0.6:
                     inner = ["d", inner_ports]
                     S = gen_dot_stream(rng, 0, True, ports=inner_ports + others)
                 else:
@@ -493,6 +593,8 @@ class C02(Property):
                 items = [inner] + others
                 if rng.random() < 0.3:
                     items = others + [inner]
+                elif rng.random() < 0.15 and len(others) == 2:
+                    items = [others[0], inner, others[1]]
                 shape = {"kind": "nest", "items": items}
                 if len(S) > 7:
                     S = S[:7]
@@ -500,6 +602,71 @@ class C02(Property):
             if len(batch) >= 4000:
                 self._flush(ctx, batch)
         self._flush(ctx, batch)
+        self._nestc(ctx, wf)
+        self._steps(ctx)
+        # the replay written for a key is the first failure of that key: put the smallest streams first
+        ctx.failures.sort(key=lambda f: len(f.replay.get("stream", [])) if isinstance(f.replay, dict) else 99)
+
+    def _steps(self, ctx: Ctx) -> None:
+        """well-formed streams through a real CombinatorStep (ports, persistence, `asyncio.wait` in `run`) under the
+        controlled loop: whatever interleaving of the ports the loop picks, the output ports carry the specified schemas"""
+        rng = ctx.rng
+        n = 40 if ctx.tier == "quick" and ctx.mode == "check" else 300
+        sfc = sfctx.make_context(ctx.scratch)
+        try:
+            for i in range(n):
+                if ctx.out_of_time():
+                    ctx.extra["incomplete"] = True
+                    break
+                P = rng.choice([2, 2, 3])
+                r = rng.random()
+                if r < 0.5:
+                    shape = {"kind": "dot", "P": P}
+                    S = gen_dot_stream(rng, P, True)
+                elif r < 0.8:
+                    shape = {"kind": "cart", "depth": rng.choice([1, 1, 2]), "P": P}
+                    S = gen_cart_stream(rng, P, shape["depth"], True)
+                else:
+                    shape = {"kind": "nest", "items": [["c", 1, [0, 1]], 2] if rng.random() < 0.5 else [["d", [0, 1]], 2]}
+                    S = gen_dot_stream(rng, 0, True, ports=[0, 1, 2]) if shape["items"][0][0] == "d" else (
+                        gen_cart_stream(rng, 0, 1, True, ports=[0, 1]) + [(2, "0", 777)])
+                S = S[:8]
+                if shape["kind"] == "dot":
+                    spec = spec_dot(list(range(P)), S)
+                elif shape["kind"] == "cart":
+                    spec = spec_cart(shape["depth"], list(range(P)), S)
+                else:
+                    spec = spec_nest(shape, S)
+                    if spec is None:
+                        continue
+                order = list(range(len(S)))
+                rng.shuffle(order)
+                evs = [S[j] for j in order]
+                seed = rng.randrange(1 << 30)
+                try:
+                    with alarm(SLOW_S):
+                        out = sfloop.run_controlled(lambda: run_step(sfc, shape, evs, f"w{ctx.seed}-{ctx.mode}-{i}"), seed,
+                                                    timeout=SLOW_S - 60)
+                except (Hang, TimeoutError):
+                    # a step case normally takes ~50 ms; on a loaded machine an overrun is inconclusive, not a violation
+                    ctx.notes.append(f"step-level case {i} exceeded {SLOW_S - 60} s: {shape} {evs} (loop seed {seed})")
+                    ctx.extra["incomplete"] = True
+                    raise Inconclusive(f"CombinatorStep.run case exceeded {SLOW_S - 60} s on {shape} {evs} (loop seed {seed})")
+                except Exception as e:  # noqa: BLE001
+                    ctx.fail(f"{shape['kind']}:step:exception", f"CombinatorStep.run raised {type(e).__name__}: {e} on {shape} {evs}",
+                             {"shape": shape, "stream": S, "orders": [order], "step_seed": seed})
+                    continue
+                ctx.case({"shape": shape, "stream": evs, "via": "CombinatorStep.run", "loop_seed": seed, "emitted": len(out)},
+                         ("step", line_of(shape, evs)) if out else None, f"step:{shape['kind']}")
+                if canon(out) != spec:
+                    ctx.fail(f"{shape['kind']}:step:wf:not-the-specified-combinations",
+                             f"CombinatorStep.run over {shape}, well-formed stream fed in order {evs} (loop seed {seed}): output ports carry "
+                             f"{canon(out)[:6]}, specified {spec[:6]}", {"shape": shape, "stream": S, "orders": [order], "step_seed": seed})
+        finally:
+            try:
+                sfloop.run_controlled(lambda: sfctx.close_context(sfc), 0, timeout=300)
+            except Exception:  # noqa: BLE001
+                pass
 
     def replay(self, ctx: Ctx, data) -> None:
         r = data.get("replay") or data.get("case") or {}
@@ -508,6 +675,22 @@ class C02(Property):
         if "shape" not in r:
             return super().replay(ctx, data)
         shape, S = r["shape"], [tuple(e) for e in r["stream"]]
+        if "step_seed" in r:
+            return self._replay_step(ctx, r, shape, S)
+        if shape["kind"] == "nestc":
+            wf = Workflow(context=sfctx.make_context(ctx.scratch), config={}, name="w")
+            for o in (r.get("orders") or [list(range(len(S)))]):
+                res: list = []
+
+                async def go1():
+                    res.append(await run_real(wf, shape, [S[i] for i in o]))
+
+                with alarm(SLOW_S):
+                    sfloop.run_controlled(go1, 0, timeout=None)
+                print(f"{shape}\nstream {S} order {o}\n   real: {render(*res[0])}   (not modelled: cartesian product over an inner combinator)")
+                if res[0][1] is not None:
+                    ctx.fail(KEY_NESTC, f"combine() raised {res[0][1]}", r)
+            return
         wf = Workflow(context=sfctx.make_context(ctx.scratch), config={}, name="w")
         ords = [tuple(o) for o in (r.get("orders") or [list(range(len(S)))])]
         results = []
@@ -516,8 +699,8 @@ class C02(Property):
             for o in ords:
                 results.append(await run_real(wf, shape, [S[i] for i in o]))
 
-        with alarm(60):
-            sfloop.run_controlled(go, 0, timeout=60)
+        with alarm(SLOW_S):
+            sfloop.run_controlled(go, 0, timeout=None)
         lines = [line_of(shape, [S[i] for i in o]) for o in ords]
         model = ctx.lean(DRIVER, lines)
         kind = shape["kind"]
@@ -537,8 +720,32 @@ class C02(Property):
             if wfok and (err is not None or canon(out) != spec):
                 ctx.fail(f"{kind}:wf:not-the-specified-combinations", f"order {list(o)} emits {canon(out)}, specified {spec}", r)
         cans = [canon(out) for out, _ in results]
+        if not wfok and kind == "dot" and not has_dup(ports, S) and any(e is not None for _, e in results):
+            ctx.fail(KEY_IDX, f"combine() raised {[e for _, e in results if e][0]}", r)
         if not wfok and any(c != cans[0] for c in cans) and not has_dup(ports, S):
             ctx.fail(KEY_DESC if kind == "dot" else KEY_MIXED, f"orders emit different multisets: {cans}", r)
+
+
+    def _replay_step(self, ctx: Ctx, r, shape, S) -> None:
+        evs = [S[j] for j in r["orders"][0]]
+        ports = list(range(shape["P"])) if shape["kind"] != "nest" else nest_ports(shape)
+        spec = (spec_dot(ports, S) if shape["kind"] == "dot" else
+                spec_cart(shape["depth"], ports, S) if shape["kind"] == "cart" else spec_nest(shape, S))
+        sfc = sfctx.make_context(ctx.scratch)
+        try:
+            with alarm(SLOW_S):
+                out = sfloop.run_controlled(lambda: run_step(sfc, shape, evs, "replay"), r["step_seed"], timeout=SLOW_S - 60)
+            print(f"CombinatorStep.run over {shape}\nfed in order {evs} (loop seed {r['step_seed']})\n"
+                  f"   output ports: {canon(out)}\n   specified   : {spec}")
+            if canon(out) != spec:
+                ctx.fail(f"{shape['kind']}:step:wf:not-the-specified-combinations", "still differs", r)
+        except (Hang, TimeoutError):
+            ctx.fail(f"{shape['kind']}:step:hang", "still hangs", r)
+        finally:
+            try:
+                sfloop.run_controlled(lambda: sfctx.close_context(sfc), 0, timeout=300)
+            except Exception:  # noqa: BLE001
+                pass
 
 
 PROPERTY = C02()
